@@ -81,7 +81,7 @@ class Scheduler:
         """
         if isinstance(event, DelayedEvent):
             if event.delay > 0:
-                event.delay -= dt
+                event.delay = round(event.delay - dt, 10) # do not let float errors of the countdown add a step (1.0 - 5*0.2 > 0)
                 self.delayed_events += [event]
                 return None
         return event
